@@ -300,29 +300,37 @@ Definition start_ok (B : list bool) : Prop :=
     opp_at opp (eco m 0) = Some (eco j 0) /\ Cint_t m (eco m 0) /\ Cint_t m (eco m 1) /\ Cint_t m (eco m 2).
 
 
-Lemma start_loop_sim B : start_ok B -> NC = 3 * Z.of_nat (length Q) ->
-  forall RS' i d, RS' = skipn i (tops (length Y)) ->
+(** the same for any list [TS] of face indices standing for the decoder's stack after the symbol loop *)
+Definition start_ok_g (TS : list nat) (B : list bool) : Prop :=
+  let ns := length Y in
+  length TS = length B /\ (ns + cnt_true B = length Q)%nat /\
+  forall i j, nth_error TS i = Some j -> nth i B false = true ->
+    let m := (ns + cnt_true (firstn i B))%nat in
+    opp_at opp (eco m 0) = Some (eco j 0) /\ Cint_t m (eco m 0) /\ Cint_t m (eco m 1) /\ Cint_t m (eco m 2).
+
+Lemma start_loop_sim_g (TS : list nat) B : (forall j, In j TS -> (j < length Y)%nat) -> start_ok_g TS B -> NC = 3 * Z.of_nat (length Q) ->
+  forall RS' i d, RS' = skipn i TS ->
   let m := (length Y + cnt_true (firstn i B))%nat in
   SIM m d -> DP.W NC maxv (Z.of_nat m) d -> DC.FJ (Z.of_nat m) d -> LAB m d ->
   exists d', D.start_loop NC maxv (Z.of_nat (length Q)) (D.bits_of_list B) i (map (fun j => dco j 0) RS') d = D.Ok d' /\
     SIM (length Q) d' /\ LAB (length Q) d' /\ D.invalid d' = D.invalid d /\
     DP.W NC maxv (Z.of_nat (length Q)) d' /\ DC.FJ (Z.of_nat (length Q)) d'.
 Proof.
-  intros (SL & ST & SF) HNC'. set (ns := length Y) in *.
+  intros TSlt (SL & ST & SF) HNC'. set (ns := length Y) in *.
   induction RS' as [|j R IH]; intros i d ERS m HS HW HJ HL.
   - cbn [map D.start_loop]. eexists. split; [reflexivity|].
     assert (Hi : (length B <= i)%nat).
-    { assert (L : length (skipn i (tops ns)) = 0%nat) by (rewrite <- ERS; reflexivity). rewrite skipn_length in L. lia. }
+    { assert (L : length (skipn i TS) = 0%nat) by (rewrite <- ERS; reflexivity). rewrite skipn_length in L. lia. }
     assert (Em : m = length Q). { unfold m. rewrite firstn_all2 by lia. lia. }
     rewrite Em in HS, HL, HW, HJ. split; [destruct HS as [S1 S2 S3]; constructor; auto|]. split; [exact HL|].
     split; [reflexivity|]. split; [destruct HW; constructor; dproj; try assumption; constructor|destruct HJ; constructor; auto].
-  - assert (Hi : (i < length (tops ns))%nat).
-    { assert (L : length (skipn i (tops ns)) = S (length R)) by (rewrite <- ERS; reflexivity). rewrite skipn_length in L. lia. }
-    assert (Ej : nth_error (tops ns) i = Some j).
-    { rewrite <- (firstn_skipn i (tops ns)), <- ERS. rewrite nth_error_app2 by (rewrite firstn_length_le; lia).
+  - assert (Hi : (i < length TS)%nat).
+    { assert (L : length (skipn i TS) = S (length R)) by (rewrite <- ERS; reflexivity). rewrite skipn_length in L. lia. }
+    assert (Ej : nth_error TS i = Some j).
+    { rewrite <- (firstn_skipn i TS), <- ERS. rewrite nth_error_app2 by (rewrite firstn_length_le; lia).
       rewrite firstn_length_le by lia. rewrite Nat.sub_diag. reflexivity. }
-    assert (ER : R = skipn (S i) (tops ns)) by (eapply skipn_cons_tail; eauto).
-    assert (Hjn : (j < ns)%nat) by (apply tops_lt; eapply nth_error_In; eauto).
+    assert (ER : R = skipn (S i) TS) by (eapply skipn_cons_tail; eauto).
+    assert (Hjn : (j < ns)%nat) by (apply TSlt; eapply nth_error_In; eauto).
     pose proof (cnt_true_firstn_S B i ltac:(lia)) as CS.
     pose proof (cnt_true_le B i) as CL.
     cbn [map D.start_loop]. unfold D.bits_of_list at 1.
@@ -422,6 +430,15 @@ Proof.
         |rewrite Em'; destruct HJ; constructor; auto|rewrite Em'; exact HL|].
       exists d2. split; [auto|]. split; [auto|]. split; [auto|]. split; [exact R3|]. split; auto.
 Qed.
+
+Lemma start_loop_sim B : start_ok B -> NC = 3 * Z.of_nat (length Q) ->
+  forall RS' i d, RS' = skipn i (tops (length Y)) ->
+  let m := (length Y + cnt_true (firstn i B))%nat in
+  SIM m d -> DP.W NC maxv (Z.of_nat m) d -> DC.FJ (Z.of_nat m) d -> LAB m d ->
+  exists d', D.start_loop NC maxv (Z.of_nat (length Q)) (D.bits_of_list B) i (map (fun j => dco j 0) RS') d = D.Ok d' /\
+    SIM (length Q) d' /\ LAB (length Q) d' /\ D.invalid d' = D.invalid d /\
+    DP.W NC maxv (Z.of_nat (length Q)) d' /\ DC.FJ (Z.of_nat (length Q)) d'.
+Proof. intros SO. apply (start_loop_sim_g (tops (length Y)) B); [apply tops_lt|exact SO]. Qed.
 
 (** ** the decoder on a script without S and without split events (interior start faces allowed) *)
 Theorem dec_roundtrip_noS B :
